@@ -19,9 +19,10 @@ BUILD = os.path.join(VERIF, "build")
 NCPU = 16
 
 
-def setup_impl_env():
+def setup_impl_env(prior_use=6):
     """Make `import xeofs` resolve to REPO's working tree; stub the optional
-    statsmodels dependency so cross-set classes can be constructed."""
+    statsmodels dependency so cross-set classes can be constructed; give every `prior_use`-th model object a call history
+    before its first fit (install_prior_use; 0 = off)."""
     os.environ.setdefault("PYTHONHASHSEED", "0")
     os.environ["XEOFS_VERIF"] = "1"
     if REPO not in sys.path:
@@ -34,6 +35,10 @@ def setup_impl_env():
             m.__spec__ = importlib.machinery.ModuleSpec("statsmodels", None)
             sys.modules["statsmodels"] = m
     warnings.filterwarnings("ignore")
+    try:
+        install_prior_use(prior_use)
+    except Exception:
+        pass
 
 
 # ---------------------------------------------------------------- Coq text
@@ -226,7 +231,7 @@ ACCESSORS = ("components", "scores", "components_amplitude", "components_phase",
              "periods", "filter_patterns", "decorrelation_time", "get_params")
 
 
-def exercise(m, *data, normalized=(None,)):
+def exercise(m, *data, light=False):
     """call everything a user may have called on a fitted model before the calls under test: every accessor, transform of
     the data, inverse_transform of the scores, compute(), serialize(). Errors are ignored here (each has its own check);
     the point is the state the calls may leave behind."""
@@ -254,7 +259,7 @@ def exercise(m, *data, normalized=(None,)):
         m.inverse_transform(*(s if isinstance(s, (list, tuple)) else (s,)))
     except Exception:
         pass
-    for name in ("compute", "serialize"):
+    for name in (() if light else ("compute", "serialize")):
         try:
             getattr(m, name)()
         except Exception:
@@ -270,3 +275,68 @@ def other_like(rng, da, scale=1.0):
         w = w + 1j * rng.normal(size=v.shape)
     w = np.where(np.isnan(v), np.nan, w)
     return da.copy(data=w.astype(v.dtype))
+
+
+# ---------------------------------------------------------------- prior use of model objects, for every check
+_PRIOR = {"count": 0, "every": 0, "installed": False, "busy": False, "seen": set(), "done": 0, "failed": 0, "last": False}
+
+
+def other_like_any(rng, obj):
+    """other_like for DataArray, Dataset and (nested) lists of them; None if the object is something else"""
+    import xarray as xr
+    if isinstance(obj, xr.DataArray):
+        return other_like(rng, obj)
+    if isinstance(obj, xr.Dataset):
+        return obj.copy(data={k: other_like(rng, v).values for k, v in obj.data_vars.items()})
+    if isinstance(obj, (list, tuple)):
+        items = [other_like_any(rng, o) for o in obj]
+        return None if any(i is None for i in items) else type(obj)(items)
+    return None
+
+
+def install_prior_use(every=6):
+    """From now on, every `every`-th model object (single-set or cross-set) whose fit is called for the first time is first
+    fitted on unrelated data of the same structure and driven through its accessors, transform and inverse_transform;
+    the fit the check asked for follows. By C14 no answer may depend on that; each check's oracles then also cover
+    objects with a call history. every=0 switches it off."""
+    import numpy as np
+    if every and os.environ.get("VERIF_PRIOR_USE_EVERY"):
+        every = int(os.environ["VERIF_PRIOR_USE_EVERY"])      # replays: every object, so that a recorded case meets the same history
+    _PRIOR["every"] = every
+    if _PRIOR["installed"] or not every:
+        return
+    from xeofs.cross.base_model_cross_set import BaseModelCrossSet
+    from xeofs.single.base_model_single_set import BaseModelSingleSet
+
+    def wrap(cls, nfields):
+        orig = cls.fit
+
+        def fit(self, *a, **kw):
+            if _PRIOR["every"] and not _PRIOR["busy"] and id(self) not in _PRIOR["seen"]:
+                _PRIOR["seen"].add(id(self))
+                _PRIOR["count"] += 1
+                _PRIOR["last"] = False
+                if _PRIOR["count"] % _PRIOR["every"] == 0:
+                    _PRIOR["busy"] = True
+                    try:
+                        rng = np.random.default_rng(_PRIOR["count"])
+                        others = [other_like_any(rng, x) for x in a[:nfields]]
+                        if len(others) == nfields and all(o is not None for o in others) and not any(
+                                "dask" in type(getattr(o, "data", None)).__module__ for o in others if hasattr(o, "data")):
+                            orig(self, *others, *a[nfields:], **kw)
+                            exercise(self, *others, light=True)
+                            _PRIOR["done"] += 1
+                            _PRIOR["last"] = True
+                    except Exception:
+                        _PRIOR["failed"] += 1
+                    finally:
+                        _PRIOR["busy"] = False
+            return orig(self, *a, **kw)
+        cls.fit = fit
+    wrap(BaseModelSingleSet, 1)
+    wrap(BaseModelCrossSet, 2)
+    _PRIOR["installed"] = True
+
+
+def prior_use_counts():
+    return dict(objects_seen=_PRIOR["count"], with_prior_use=_PRIOR["done"], prior_use_refused=_PRIOR["failed"], every=_PRIOR["every"])
